@@ -19,6 +19,11 @@ type Key struct {
 	Priv  []byte
 	Pub   *crypto.PublicKey
 	PK    []byte // compressed public key (33 bytes)
+
+	code    []byte
+	program common.Uint168
+	deposit common.Uint168
+	stake   common.Uint168
 }
 
 // NewKey derives key i of a labelled family.
@@ -30,7 +35,29 @@ func NewKey(label string, i int) *Key {
 	if err != nil {
 		panic(err)
 	}
-	return &Key{Label: fmt.Sprintf("%s%d", label, i), Priv: priv, Pub: pub, PK: pk}
+	k := &Key{Label: fmt.Sprintf("%s%d", label, i), Priv: priv, Pub: pub, PK: pk}
+	// derived values are computed once (each costs a public-key decompression in the repository)
+	c, err := contract.CreateStandardRedeemScript(pub)
+	if err != nil {
+		panic(err)
+	}
+	k.code = c
+	ct, err := contract.CreateStandardContract(pub)
+	if err != nil {
+		panic(err)
+	}
+	k.program = *ct.ToProgramHash()
+	dc, err := contract.CreateDepositContractByPubKey(pub)
+	if err != nil {
+		panic(err)
+	}
+	k.deposit = *dc.ToProgramHash()
+	sc, err := contract.CreateStakeContractByCode(c)
+	if err != nil {
+		panic(err)
+	}
+	k.stake = *sc.ToProgramHash()
+	return k
 }
 
 // Keys derives keys 0..n-1 of a family.
@@ -55,37 +82,13 @@ func (k *Key) Sign(data []byte) []byte {
 }
 
 // Code is the standard redeem script of the key.
-func (k *Key) Code() []byte {
-	c, err := contract.CreateStandardRedeemScript(k.Pub)
-	if err != nil {
-		panic(err)
-	}
-	return c
-}
+func (k *Key) Code() []byte { return append([]byte{}, k.code...) }
 
 // ProgramHash is the standard (single-signature) program hash of the key.
-func (k *Key) ProgramHash() common.Uint168 {
-	ct, err := contract.CreateStandardContract(k.Pub)
-	if err != nil {
-		panic(err)
-	}
-	return *ct.ToProgramHash()
-}
+func (k *Key) ProgramHash() common.Uint168 { return k.program }
 
 // DepositHash is the deposit-address program hash of the key.
-func (k *Key) DepositHash() common.Uint168 {
-	ct, err := contract.CreateDepositContractByPubKey(k.Pub)
-	if err != nil {
-		panic(err)
-	}
-	return *ct.ToProgramHash()
-}
+func (k *Key) DepositHash() common.Uint168 { return k.deposit }
 
 // StakeHash is the stake-address program hash of the key (DPoS v2 voter identity).
-func (k *Key) StakeHash() common.Uint168 {
-	ct, err := contract.CreateStakeContractByCode(k.Code())
-	if err != nil {
-		panic(err)
-	}
-	return *ct.ToProgramHash()
-}
+func (k *Key) StakeHash() common.Uint168 { return k.stake }
